@@ -102,6 +102,9 @@ pub struct Arena {
     pub assumed: Vec<(u32, bool)>,
     /// when set, a decision that is not forced panics with `NotEncodable`
     pub forbid_forks: bool,
+    /// comparisons against infinite / huge constants fork like any other comparison instead of assuming the value
+    /// domain (-1e30, 1e30) — for Float32-only cases about overflow
+    pub extreme_forks: bool,
     /// "away from kinks and ties": `a == b` is never taken for symbolic operands and `!(a < b)` means `b < a`
     pub no_ties: bool,
     pub max_decisions: usize,
@@ -506,7 +509,14 @@ impl Sf32 {
     pub fn is_finite(self) -> bool {
         match self.concrete() {
             Some(x) => x.is_finite(),
-            None => true,
+            None => {
+                if with(|a| a.extreme_forks) {
+                    // |x| < +inf, decided like any comparison (NaN excluded as everywhere in control flow)
+                    self.abs() < Sf32(R::C(f32::INFINITY.to_bits()))
+                } else {
+                    true
+                }
+            }
         }
     }
     pub fn is_infinite(self) -> bool {
@@ -644,7 +654,7 @@ fn decide(cnd: Cond) -> bool {
         }
         // comparison against an extreme constant (|c| >= 1e30 or infinite): stay inside the stated
         // value domain instead of forking (recorded, and asserted in every query of this path)
-        if extreme(x) || extreme(y) {
+        if (extreme(x) || extreme(y)) && !a.extreme_forks {
             let (cst, cst_is_left) = if extreme(x) { (cv(x).unwrap(), true) } else { (cv(y).unwrap(), false) };
             // the symbolic side is assumed strictly inside (-1e30, 1e30)
             let v = match (cnd, cst_is_left) {
